@@ -203,6 +203,14 @@ def rule_asm(ctx):
     ok = "self.result = next(self.reader)" in src and "self.reader = None" in src and "self.outReadEvent(readBuffer)" in src
     ctx.check(R, ok, f.qname, "_doReadOp delivers the data and clears the slot", "_doReadOp must deliver the read "
               "data through outReadEvent and clear the reader", f.loc())
+    # which indications finish a read: 0 (wants read) and 1 (wants write) both keep it pending
+    from .common import spec_rows
+    spec_rows(ctx, R, f.qname, [
+        dict(what="_doReadOp keeps the read pending on 0 and on 1, finishes it on data",
+             dom={"self.result": [0, 1, b"x", b""]}, abort=lambda e: False,
+             effects={"self.reader = None": lambda e: e["self.result"] not in (0, 1)},
+             msg="a read that yields 0 (waiting to read) or 1 (waiting to write its own reply) is still in "
+                 "progress; anything else is the data and ends the operation")])
     # the machine gets no further read event for plaintext already decrypted and buffered: one read
     # must be able to deliver a whole maximum-size record, independent of any negotiated/outgoing size
     from ..condeval import ev, Unknown
@@ -294,4 +302,6 @@ RULES = [
     ("C14.ASM", "quick", rule_asm),
     ("C14.SEAMS", "quick", rule_seams),
     ("C14.POSTFAIL", "quick", borrowed("c17", "rule_postfail", "C17.POSTFAIL", "C14.POSTFAIL")),
+    # how the byte stream is cut into records must not matter below TLS 1.3: the record-boundary gates
+    ("C14.RECORD-GATES", "quick", borrowed("c06", "rule_record_gates", "C06.RECORD-GATES", "C14.RECORD-GATES")),
 ]
